@@ -1,4 +1,4 @@
-CONSTANTS NodeId = 5  NT = 1  NR = 1  Walk = FALSE  WalkLen = 0  CfgName = "C14T"
+CONSTANTS NodeId = 5  NT = 1  NR = 1  Walk = FALSE  WalkLen = 0  PoolN = 16  CfgName = "C14T"
 CONSTANT Objs <- MCObjs  ObjOrder <- MCOrder  V0 <- MCV0  TC0 <- TC14  RC0 <- RC14  Sync0 <- S12  Letters <- L14TQ  ProbeLetters <- P14
 INIT Init
 NEXT Next
